@@ -51,109 +51,191 @@ let decode_echo (px : int) (body : n list) : (int * int) option =
   if l <> len - px - 4 || l < 8 then None else
   Some (be (firstk 8 (drop (px + 4) b)), l - 8)
 
-type expect = ExactOk of int * int | AnyErr | Unsure
+(* what the client may have returned for one request *)
+type expect =
+  | ExactOk of int * int          (* ok:<marker>:<padlen>:1 *)
+  | ErrIn of string list          (* err:<class> with class in the list; [] = any class *)
+  | OwnOkOrErr                    (* the model delivered a frame this driver cannot decode: an error, or
+                                     at most an intact body of the request's OWN marker *)
 
 let count_outs t = List.length (List.filter (function TOut _ -> true | _ -> false) t)
 let has_rst t = List.exists (function TRst -> true | _ -> false) t
 
-(* candidate final states of one connection: one, or one per delivered prefix when it was reset *)
-let candidates (t : tev list) : conn list =
+(* a request the client wrote before it saw our FIN is read by the mock after the FIN was sent:
+   in the schedule it belongs before the end of stream *)
+let reorder_after_fin (t : tev list) : tev list =
+  let rec split acc = function
+    | TFin :: rest -> Some (List.rev acc, rest)
+    | x :: rest -> split (x :: acc) rest
+    | [] -> None in
+  match split [] t with
+  | Some (before, after) -> before @ List.filter (function TIn _ -> true | _ -> false) after @ [TFin]
+  | None -> t
+
+(* candidate runs of one connection: (final state, labels skipped); one, or one per delivered prefix
+   when the connection was reset *)
+let candidates (t : tev list) : (conn * int) list =
+  let one keep = (simulate keep t, int_of_nat (skipped_labels (conn_init false) (labels_of keep t))) in
   if has_rst t then
-    simulate None t :: List.init (count_outs t + 1) (fun k -> simulate (Some (nat_of_int (count_outs t - k))) t)
-  else [simulate None t]
+    one None :: List.init (count_outs t + 1) (fun k -> one (Some (nat_of_int (count_outs t - k))))
+  else [one None]
 
 let rec product = function
   | [] -> [[]]
   | c :: r -> let pr = product r in List.concat_map (fun x -> List.map (fun p -> x :: p) pr) c
 
-let expectation (px : int) (finals : conn list) (marker : int) : expect =
-  let outs = List.filter_map (fun st -> outcome_of (n_of_rid marker) st.c_done) finals in
-  match List.find_opt (function Resp _ -> true | _ -> false) outs with
+let classes_of_err (e : err_kind) : string list = match e with
+  | EHeaderIo | EClosedInBody | EHeader _ -> ["broken.FrameHeaderParseError"]
+  | EUnexpectedStream _ -> ["broken.UnexpectedStreamId"]
+  | EKeepaliveTimeout -> ["broken.KeepaliveTimeout"]
+  | EKeepaliveRequest -> ["broken.KeepaliveRequestError"]
+  | EEnv _ -> ["broken.WriteError"; "broken.FrameHeaderParseError"]
+
+let expect_of_outcome (px : int) (idem : bool) (o : outcome option) : expect option =
+  match o with
   | Some (Resp f) ->
     if int_of_n (f_opcode f) = 8 && int_of_n (f_flags f) = 0 then
-      (match decode_echo px f.f_body with Some (m, p) -> ExactOk (m, p) | None -> AnyErr)
-    else Unsure
-  | _ -> AnyErr
+      (match decode_echo px f.f_body with Some (m, p) -> Some (ExactOk (m, p)) | None -> Some (ErrIn []))
+    else Some OwnOkOrErr
+  | Some (FailBroken e) ->
+    (* an idempotent request is sent again; when no connection is left the pool's error is returned *)
+    Some (ErrIn (classes_of_err e @ (if idem then ["pool"] else [])))
+  | Some FailChannel -> Some (ErrIn (["broken.ChannelError"] @ (if idem then ["pool"] else [])))
+  | Some FailAlloc -> Some (ErrIn ["attempt.UnableToAllocStreamId"])
+  | None -> None                   (* seen by the mock, but neither answered nor failed in the model *)
 
-let matches (e : expect) (r : string) : bool =
+(* multi-attempt requests (idempotent, retried): first delivered frame wins, else some error *)
+let expectation_multi (px : int) (finals : conn list) (marker : int) : expect =
+  let outs = List.filter_map (fun st -> outcome_of (n_of_rid marker) st.c_done) finals in
+  match List.find_opt (function Resp _ -> true | _ -> false) outs with
+  | Some o -> (match expect_of_outcome px true (Some o) with Some e -> e | None -> ErrIn [])
+  | None -> ErrIn []
+
+let matches (own : int) (e : expect) (r : string) : bool =
   match e, String.split_on_char ':' r with
-  | ExactOk (m, p), ["ok"; m'; p'; "1"] -> int_of_string m' = m && int_of_string p' = p
-  | AnyErr, "err" :: _ -> true
-  | Unsure, ("err" :: _ | "ok" :: _) -> true
   | _, ["cancelled"] -> true        (* the caller dropped its future: nothing to compare *)
+  | ExactOk (m, p), ["ok"; m'; p'; "1"] -> int_of_string m' = m && int_of_string p' = p
+  | ErrIn [], "err" :: _ -> true
+  | ErrIn l, ["err"; c] -> List.mem c l
+  | OwnOkOrErr, "err" :: _ -> true
+  | OwnOkOrErr, ["ok"; m'; _; "1"] -> int_of_string m' = own
   | _ -> false
 
-let show = function ExactOk (m, p) -> Printf.sprintf "ok:%d:%d" m p | AnyErr -> "err" | Unsure -> "?"
+let show = function
+  | ExactOk (m, p) -> Printf.sprintf "ok:%d:%d" m p
+  | ErrIn [] -> "err"
+  | ErrIn l -> "err:" ^ String.concat "/" l
+  | OwnOkOrErr -> "err-or-own-ok"
+
+let starts_with pre s = String.length s >= String.length pre && String.sub s 0 (String.length pre) = pre
 
 let verdict case impl =
   match case with
-  | "F" :: _ ->
+  | "F" :: fields ->
     (match impl with
      | "error" :: _ -> "error runner " ^ String.concat " " impl
-     | s :: _ when String.length s >= 4 && String.sub s 0 4 = "skip" -> "ok skipped " ^ s
+     | s :: _ when starts_with "skip" s -> "ok skipped " ^ s
      | _ ->
+       let idem = (try List.nth fields 8 = "1" with _ -> false) in
        let kv = kv_of impl in
        let get k = try List.assoc k kv with Not_found -> failwith ("missing " ^ k) in
+       let geto k d = try List.assoc k kv with Not_found -> d in
        let res = String.split_on_char ',' (get "res") in
        let fu = get "fu" and tmax = int_of_string (get "tmax") and bound = int_of_string (get "bound") in
+       let probe_hangs = int_of_string (geto "ph" "0") in
        let px = int_of_string (get "px") in
-       let conns = parse_conns (get "conns") in
-       let side_ok = fu = "ok" && tmax <= bound in
-       (* 1. the cheap thing: does some admissible run of the model give exactly these outcomes? *)
+       let conns = List.map reorder_after_fin (parse_conns (get "conns")) in
        let nres = List.length res in
        let res_arr = Array.of_list res in
-       (* markers (client requests) seen on each connection *)
+       (* client requests (markers) seen on each connection *)
        let markers_of t = List.sort_uniq compare (List.filter_map (function
          | TIn (_, r, _) -> let v = int_of_n r in if v mod 2 = 0 && v / 2 >= 1 && v / 2 <= nres then Some (v / 2) else None
          | _ -> None) t) in
        let per_conn = List.map markers_of conns in
        let seen = Array.make (nres + 1) 0 in
        List.iter (List.iter (fun m -> seen.(m) <- seen.(m) + 1)) per_conn;
-       let independent = Array.for_all (fun c -> c <= 1) seen in
-       let model_agrees =
-         if independent then
-           (* no request was attempted on two connections: every connection is judged on its own
-              (for a reset connection: some delivered prefix must explain all of its requests) *)
-           List.for_all2 (fun t ms ->
-             List.exists (fun st -> List.for_all (fun m -> matches (expectation px [st] m) res_arr.(m - 1)) ms)
-               (candidates t)) conns per_conn
-           && (let ok = ref true in
-               for m = 1 to nres do
-                 if seen.(m) = 0 && not (matches AnyErr res_arr.(m - 1)) then ok := false
-               done; !ok)
-         else
-           List.exists (fun finals ->
-             List.for_all2 (fun i r -> matches (expectation px finals (i + 1)) r)
-               (List.init nres (fun i -> i)) res)
-             (product (List.map candidates conns)) in
-       if side_ok && model_agrees then "ok"
-       else begin
-         (* 2. the property itself, on the implementation's output *)
-         let viol = ref [] in
-         if tmax > bound || List.mem "hang" res then viol := "request-hangs" :: !viol;
-         if fu <> "ok" then viol := "session-does-not-serve-follow-up" :: !viol;
-         List.iteri (fun i r ->
-           match String.split_on_char ':' r with
-           | ["ok"; m; p; padok] ->
-             let m = int_of_string m and p = int_of_string p in
-             if m <> i + 1 || padok <> "1" then
-               viol := Printf.sprintf "request-%d-got-foreign-or-damaged-body" (i + 1) :: !viol
-             else begin
-               let rid = n_of_rid (i + 1) in
-               let sent = List.exists (fun t ->
-                 List.exists (fun s ->
-                   List.exists (fun b -> decode_echo px b = Some (m, p)) (sent_for s rid false t))
-                   (streams_of rid t)) conns in
-               if not sent then
-                 viol := Printf.sprintf "request-%d-returned-a-body-never-completely-sent-for-it" (i + 1) :: !viol
-             end
-           | _ -> ()) res;
-         match !viol with
-         | v :: _ -> "viol " ^ v
-         | [] ->
+       (* ---- 1. the property predicate on the implementation's own output, ALWAYS ---- *)
+       let viol = ref [] in
+       let add v = viol := v :: !viol in
+       if tmax > bound || List.mem "hang" res || fu = "hang" || probe_hangs > 0 then add "request-hangs";
+       List.iteri (fun i r ->
+         match String.split_on_char ':' r with
+         | ["err"; "panic"] -> add (Printf.sprintf "client-task-%d-panicked" (i + 1))
+         | ["ok"; m; p; padok] ->
+           let m = int_of_string m and p = int_of_string p in
+           if m <> i + 1 || padok <> "1" then
+             add (Printf.sprintf "request-%d-got-foreign-or-damaged-body" (i + 1))
+           else begin
+             let rid = n_of_rid (i + 1) in
+             let sent = List.exists (fun t ->
+               List.exists (fun s ->
+                 List.exists (fun b -> decode_echo px b = Some (m, p)) (sent_for s rid false t))
+                 (streams_of rid t)) conns in
+             if not sent then
+               add (Printf.sprintf "request-%d-returned-a-body-never-completely-sent-for-it" (i + 1))
+           end
+         | _ -> ()) res;
+       (* "retried elsewhere only as the retry policy allows": with the policies of C06 a non-idempotent
+          request whose connection broke is never sent again (C10_retry_clause) *)
+       for m = 1 to nres do
+         if not (resend_ok idem (nat_of_int seen.(m))) then
+           add (Printf.sprintf "non-idempotent-request-%d-sent-on-%d-connections" m seen.(m))
+       done;
+       (* the session must keep working: a follow-up that fails although the mock holds a live,
+          handshaken pool connection is the driver's doing; without one it is the environment *)
+       let live_conn = List.exists (fun t ->
+         List.exists (function TOut _ -> true | _ -> false) t
+         && not (List.exists (function TFin | TRst | TClose -> true | _ -> false) t)) conns in
+       if fu = "err" && live_conn then add "session-does-not-serve-follow-up";
+       match !viol with
+       | v :: _ -> "viol " ^ v
+       | [] ->
+         if fu <> "ok" then "diff follow-up-failed-and-no-live-pool-connection-was-observed-at-the-mock" else
+         (* ---- 2. does some admissible run of the model give exactly these outcomes? ---- *)
+         let independent = Array.for_all (fun c -> c <= 1) seen in
+         let unseen_ok = ref true in
+         for m = 1 to nres do
+           if seen.(m) = 0 then begin
+             match String.split_on_char ':' res_arr.(m - 1) with
+             | ["cancelled"] -> ()
+             | ["err"; c] when c = "pool" || starts_with "broken." c -> ()
+             | _ -> unseen_ok := false
+           end
+         done;
+         let conn_agrees t ms =
+           List.exists (fun (st, skipped) ->
+             skipped = 0 &&
+             List.for_all (fun m ->
+               match expect_of_outcome px idem (outcome_of (n_of_rid m) st.c_done) with
+               | Some e -> matches m e res_arr.(m - 1)
+               | None -> matches m (ErrIn ["-"]) res_arr.(m - 1) (* only "cancelled" *)) ms)
+             (candidates t) in
+         let model_agrees =
+           if independent then List.for_all2 conn_agrees conns per_conn && !unseen_ok
+           else
+             !unseen_ok &&
+             List.exists (fun cands ->
+               List.for_all (fun (_, sk) -> sk = 0) cands &&
+               (let finals = List.map fst cands in
+                let ok = ref true in
+                for m = 1 to nres do
+                  if seen.(m) > 0 && not (matches m (expectation_multi px finals m) res_arr.(m - 1)) then ok := false
+                done; !ok))
+               (product (List.map candidates conns)) in
+         if model_agrees then "ok"
+         else begin
            let finals = List.map (fun t -> simulate None t) conns in
-           "diff model=" ^ String.concat "," (List.mapi (fun i _ -> show (expectation px finals (i + 1))) res)
-       end)
+           let skipped = List.fold_left (fun a t -> a + int_of_nat (skipped_labels (conn_init false) (labels_of None t))) 0 conns in
+           Printf.sprintf "diff skipped-labels=%d model=%s" skipped
+             (String.concat "," (List.mapi (fun i _ ->
+                if seen.(i + 1) = 0 then "err:pool/broken.*"
+                else if seen.(i + 1) = 1 then
+                  (let st = List.find (fun st -> outcome_of (n_of_rid (i + 1)) st.c_done <> None || true) finals in
+                   ignore st;
+                   let o = List.fold_left (fun acc st -> match acc with Some _ -> acc | None -> outcome_of (n_of_rid (i + 1)) st.c_done) None finals in
+                   match expect_of_outcome px idem o with Some e -> show e | None -> "pending")
+                else show (expectation_multi px finals (i + 1))) res))
+         end)
   | _ -> "error unknown-case"
 
 let () = run_lines verdict
